@@ -117,3 +117,12 @@ Arguments match_ok {A}. Arguments one_per_value {A}. Arguments values_ok {A}.
 Arguments rem_dup_ok {A}. Arguments match_check {A}. Arguments one_per_value_check {A}.
 Arguments values_check {A}. Arguments rem_dup_check {A}. Arguments sorting_perm_check {A}.
 Arguments pairs_b {A}. Arguments sorted_b {A}.
+
+(* -------------------------------------------------------------- known finding (round 2b)
+   C06.kf_mixed_sign_above_2p53: the pair mixes uint64 with a signed integer kind (numpy promotes
+   it to float64 inside np.searchsorted) AND some element of either array is not exactly
+   representable in binary64.  Outside this class the full statement is proved
+   (Properties.C06_match_outside_known); inside it completeness is refuted
+   (C06_match_mixed_refuted). *)
+Definition kf_mixed_sign_above_2p53 (mixed : bool) (a1 a2 : list Z) : bool :=
+  mixed && existsb (fun x => negb (round53 x =? x)%Z) (a1 ++ a2).
